@@ -357,7 +357,10 @@ def load_findings(prop):
 # --------------------------------------------------------------------------- report
 
 class Report:
+    current = None       # the report of the running check (harness/main.py reads it if a stream crashes)
+
     def __init__(self, prop, tier, seed):
+        Report.current = self
         self.prop, self.tier, self.seed = prop, tier, seed
         self.t0 = time.time()
         self.evaluations = 0
